@@ -123,6 +123,13 @@ Proof.
   split; [vm_compute; reflexivity|]. vm_compute. discriminate.
 Qed.
 
+(* The full statement of the property, at the level of the mailmap TEXT.  It is false (theorems 8
+   and six further parser-level classes, see NOTES.md); what is proved is theorems 5-7 from the
+   parsed entries onwards, the parser level is only tested against git. *)
+Definition resolve_full_statement : Prop :=
+  forall text name email,
+    exists s, from_bytes text = Ok s /\ resolve s name email = g_check_mailmap text name email.
+
 (* non-vacuity of the hypotheses *)
 Example en_ok_example :
   Forall en_ok [mkEntry (Some (bs "Joe")) (Some (bs "n@x")) (Some (bs "J")) (bs "a@x"); e_simple (bs "A") (bs "b@x")]
